@@ -1,6 +1,16 @@
 import SynapModel.Generated.OpTable
+import Proofs.EngineDuality
+/-!
+# C03 — Gradients of arbitrary op compositions obey the chain rule on any DAG
+
+Statements about `Synap.Engine.backward` (the model of `Tensor.backward`) for every finite graph:
+any depth and width, any fan-out / fan-in, the same tensor used twice by one op, diamonds,
+multi-output ops (several nodes sharing an operand), any mix of operands that do and do not
+require grad.  `optable_wellformed` ties the abstract `back` closures to *every* op wrapper in
+the source; the per-op adjoint identity (`hadj`) is what C01/C02 establish.
+-/
 namespace Props.C03
-open Synap.OpTable Synap.Generated
+open Synap.OpTable Synap.Generated Synap.Engine Proofs.Engine Finset
 
 /-- **Every op wrapper in the source has the structure the engine theorems assume** (regenerated
     from functional.py / nn/functional.py on every run): children = exactly the tensor operands,
@@ -11,5 +21,65 @@ theorem optable_wellformed : opTable.all wellFormed = true := by decide +kernel
 
 /-- the table and the model's catalogue name the same ops, each once -/
 theorem catalogue_complete : sameNames opTable = true := by decide +kernel
+
+variable {G R : Type}
+
+/-- **The backward order is topological**: the traversal lists exactly the nodes reachable from
+    the root, each once, every operand before the results that use it. -/
+theorem postorder_topological (ns : Graph G) (hw : WFG ns) (root : Nat) (hr : root < ns.length) :
+    let ord := (traverse ns root).ordered
+    ord.Nodup ∧ root ∈ ord ∧
+    (∀ u ∈ ord, ∀ n, ns[u]? = some n → ∀ c ∈ n.children, BeforeIn ord c u) ∧
+    (∀ v, v ∈ ord ↔ Reach ns root v) :=
+  traverse_order ns hw root hr
+
+/-- **Each recorded operation contributes exactly once per backward call.** -/
+theorem each_fn_once [Add G] (ns : Graph G) (hw : WFG ns) (root : Nat) (g : G) (retainAll : Bool)
+    (ns' : Graph G) (tr : List TrEv) (h : backward ns root g retainAll = some (ns', tr)) (v : Nat) :
+    (Reach ns root v ∧ (∃ n, ns[v]? = some n ∧ n.back.isSome = true) → tr.count (TrEv.call v) = 1) ∧
+    (¬ (Reach ns root v ∧ (∃ n, ns[v]? = some n ∧ n.back.isSome = true)) → tr.count (TrEv.call v) = 0) :=
+  Proofs.Engine.each_fn_once ns hw root g retainAll ns' tr h v
+
+/-- **backward completes** whenever the root requires grad and every kernel accepts its gradient. -/
+theorem backward_completes [Add G] (ns : Graph G) (hw : WFG ns) (hb : BacksTotal ns) (hq : BackImpliesReq ns)
+    (root : Nat) (r : Node G) (hr : ns[root]? = some r) (hrg : r.reqGrad = true) (g : G) (retainAll : Bool) :
+    ∃ res, backward ns root g retainAll = some res :=
+  backward_succeeds ns hw hb hq root r hr hrg g retainAll
+
+variable [AddCommMonoid G] [AddCommMonoid R]
+
+/-- **Chain rule on any DAG (sum over all paths).**  `P` is any bi-additive pairing; `J v k` is the
+    forward tangent map of node `v` in operand position `k`, adjoint to what `v`'s `grad_fn`
+    contributes to that operand; `tan` is *any* assignment of tangents obeying the forward-mode
+    recursion (0 on tensors that do not require grad).  Then the pairing of the root tangent with
+    the upstream gradient equals what this call adds, in total, to the pairings of the leaf
+    tangents with the leaf gradients.  Since the pairing is non-degenerate this says every leaf
+    receives exactly the derivative of the whole composed function. -/
+theorem chain_rule_any_dag (P : G →+ G →+ R) (ns : Graph G) (hw : WFG ns)
+    (hb : BacksTotal ns) (hq : BackImpliesReq ns)
+    (hz : ∀ (v : Nat) (n : Node G), ns[v]? = some n → n.zero = 0)
+    (J : Nat → Nat → G →+ G)
+    (hadj : ∀ v k t γ, P (J v k t) γ = P t (contrib ns v k γ))
+    (tan : Nat → G)
+    (htan0 : ∀ (v : Nat) (n : Node G), ns[v]? = some n → n.reqGrad = false → tan v = 0)
+    (htan : ∀ (v : Nat) (n : Node G), ns[v]? = some n → n.isLeaf = false →
+      tan v = ∑ k ∈ range n.children.length, J v k (tan (n.children.getD k 0)))
+    (root : Nat) (g : G) (retainAll : Bool) (ns' : Graph G) (tr : List TrEv)
+    (h : backward ns root g retainAll = some (ns', tr)) :
+    ((leavesOf ns root).map (fun l => P (tan l) (gradOf ns' l))).sum
+      = ((leavesOf ns root).map (fun l => P (tan l) (gradOf ns l))).sum + P (tan root) g :=
+  backward_duality P ns hw hb hq hz J hadj tan htan0 htan root g retainAll ns' tr h
+
+/-! ### Non-vacuity: a diamond `x ↦ (a = x·2, b = x·3) ↦ a + b` over `Int`, where every hypothesis of
+the chain rule holds and backward runs -/
+def diamond : Graph Int := [
+  { children := [], reqGrad := true, back := none, retain := false, grad := none, zero := 0 },
+  { children := [0], reqGrad := true, back := some (fun γ => some [some (2 * γ)]), retain := false, grad := none, zero := 0 },
+  { children := [0], reqGrad := true, back := some (fun γ => some [some (3 * γ)]), retain := false, grad := none, zero := 0 },
+  { children := [1, 2], reqGrad := true, back := some (fun γ => some [some γ, some γ]), retain := false, grad := none, zero := 0 } ]
+
+example : (backward diamond 3 1 false).map (fun r => (r.1.map (·.grad), r.2))
+    = some ([some 5, none, none, some 1], [.zero 1, .zero 0, .zero 2, .call 3, .call 2, .release 2, .call 1, .release 1]) := by
+  decide
 
 end Props.C03
